@@ -277,7 +277,7 @@ func (ex *Exec) checkAssigns(fr *Frame, entry, exit *State, reach Term, envPre *
 				skip = true
 				continue
 			}
-			guard = append(guard, Neq(rv, d.root))
+			guard = append(guard, d.outside(rv))
 		}
 		if skip {
 			continue
